@@ -120,6 +120,10 @@ def cases(ctx):
                 if 'disagrees' in ans: return ('s:raw libsecp256k1-recovery-disagrees-with-the-implementation', 'ok')
                 return (f's:msg_accepts {np(net)} {sh(a)} {hx(s)} {hx(bb)}', 'ok 1' if ans == 'ok 1' else 'ok 0')
             yield Case(f'msg_verify {hx(mg)} {np(net)} {sh(a)} {hx(s)} {hx(bb)}', 'ms', nontrivial=kind != 'valid', tag='verify-' + kind, spec=spec)
+            # the translated recovery branch of PublicKey.__init__ (interpreted; python-ecdsa's recovery replaced by the Spec's) on a sample
+            if kind in ('valid', 'r-zero', 'random', 'short', 'other-msg') and rng.random() < (0.25 if not ctx.thorough else 0.03):
+                ctx.count('gen-recover')
+                yield Case(f'msg_recover_g {hx(bb) if bb else "-"} {hx(s)}', 'g', nontrivial=True, tag='gen-recover', domain=kind == 'valid')
 
 
 KEYS = {}
@@ -268,6 +272,10 @@ def impl(op, a, ctx):
         finally:
             K.hashlib = real
         return 'ok none' if sgn is None else 'ok ' + hx(base64.b64decode(sgn))
+    if op == 'msg_recover_g':
+        m = F.bytes().decode(); sig = F.bytes()
+        p = PublicKey(message=m, signature=sig).to_bytes()
+        return f'ok {p[:32].hex()} {p[32:].hex()}'
     if op == 'msg_verify':
         import coincurve
         F.bytes(); net = F.next().split(':')[0]; addr = F.bytes().decode(); sig = F.bytes(); m = F.bytes().decode(); setup(net)
